@@ -61,6 +61,8 @@ JudgeOrigin(e) ==
   \cup If(e.scanlen # e.n, {"origin-scan-len"})
   \* two records of one stream, both scanned before either is decoded: each keeps its own residues
   \cup If(~e.pair_fast, {"origin-stream-fastpath"}) \cup If(~e.pair_slow, {"origin-stream-slowpath"})
+  \* a scanned record written back before its block is decoded reproduces the canonical text
+  \cup If(~e.rewrite_fast, {"origin-rewrite-fastpath"}) \cup If(~e.rewrite_slow, {"origin-rewrite-slowpath"})
 
 (******************************** FASTA ***********************************)
 WrapLines(n, w) == [j \in 1..((n + w - 1) \div w) |-> IF j * w <= n THEN w ELSE n - (j - 1) * w]
